@@ -73,7 +73,7 @@ func (bc *boundaryChecker) asciiAt(f eng.Fact, s ssa.Value, match func(idx ssa.V
 	}
 	if call, ok := f.Cond.(*ssa.Call); ok && f.Pos && len(call.Call.Args) == 1 {
 		if idx, ok := lookupOf(call.Call.Args[0]); ok && match(idx) {
-			if cal := call.Call.StaticCallee(); cal != nil && eng.InModule(cal) {
+			if cal := eng.StaticCallee(call); cal != nil && eng.InModule(cal) {
 				if set, err := bc.p.ByteSet(eng.FuncName(cal)); err == nil {
 					for b := range set {
 						if b >= 0x80 {
@@ -107,7 +107,7 @@ func (bc *boundaryChecker) safe(fn *ssa.Function, v, s ssa.Value, at *ssa.BasicB
 		if strings.HasPrefix(n, "strings.Index") || strings.HasPrefix(n, "strings.LastIndex") {
 			return true, ""
 		}
-		if cal := x.Call.StaticCallee(); cal != nil && eng.InModule(cal) {
+		if cal := eng.StaticCallee(x); cal != nil && eng.InModule(cal) {
 			if ok, why := bc.funcSafe(cal); ok {
 				return true, ""
 			} else {
